@@ -110,3 +110,144 @@ Theorem json_message_order :
                  else [].
 Proof. exact json_message_order_proof. Qed.
 Print Assumptions json_message_order.
+
+(* ======================= round trips (second round) ======================= *)
+From RG Require Import Spec.ParseSpec Proofs.ParseProofs.
+
+(* 7. THE ROUND TRIP of the standard printer's line format.  A reader that knows the configuration
+      (which fields are configured, the separator, --null, headings) but neither the path nor the
+      numbers nor the text gets back from the bytes of a record exactly the event's own path, line
+      number, column (1 + start of the first recorded span, if any), absolute byte offset, and text
+      (the event's bytes, terminated).  Guard, stated exactly:
+        - the field separator is non-empty and does not start with a decimal digit (sep_ok);
+        - the byte that ends the path (the --null byte, else the separator's first byte) does not
+          occur in the path;
+        - numbers fit u64 (small);
+        - the record is a line-oriented one: line-oriented search or a context line, not -o / --vimgrep
+          (those are theorem 8).
+      For every event, every input bytes, every writer state. *)
+Theorem standard_line_roundtrip :
+  forall cfg env path sk w,
+    let sepf := separator_field cfg sk in
+    let col := if is_empty_list (k_matches sk) then None else Some (fst (nth_span (k_matches sk) 0) + 1) in
+    (e_multi env && negb (is_context sk)) = false ->
+    st_only_matching cfg = false -> st_per_match cfg = false ->
+    sep_ok sepf ->
+    (forall p, path = Some p -> forallb (fun x => negb (x =? path_delim cfg sepf)%N) p = true) ->
+    small (k_lnum sk) -> small col -> small (Some (k_off sk)) ->
+    exists rec,
+      w_out (impl_sink cfg env path sk w) = w_out (write_search_prelude cfg env path w) ++ rec /\
+      parse_line cfg sepf (is_some path) (is_some (k_lnum sk)) (is_some col) rec
+      = Some (shown_path cfg path, option_map N.of_nat (k_lnum sk),
+              (if st_column cfg then option_map N.of_nat col else None),
+              (if st_byte_offset cfg then Some (N.of_nat (k_off sk)) else None),
+              terminated (e_lt env) (k_bytes sk)).
+Proof. exact standard_line_roundtrip_proof. Qed.
+Print Assumptions standard_line_roundtrip.
+
+(* the same reader on any prelude followed by any text: used for the records of theorems 8 and 9 *)
+Theorem prelude_roundtrip_any_text :
+  forall cfg path sepf, sep_ok sepf ->
+    (forall p, path = Some p -> forallb (fun x => negb (x =? path_delim cfg sepf)%N) p = true) ->
+    forall off lnum col text, small lnum -> small col -> small (Some off) ->
+    parse_line cfg sepf (is_some path) (is_some lnum) (is_some col)
+               (prelude_spec cfg path sepf off lnum col ++ text)
+    = Some (shown_path cfg path, option_map N.of_nat lnum,
+            (if st_column cfg then option_map N.of_nat col else None),
+            (if st_byte_offset cfg then Some (N.of_nat off) else None), text).
+Proof. exact prelude_roundtrip. Qed.
+Print Assumptions prelude_roundtrip_any_text.
+
+(* 8. line-oriented --only-matching and per-match (--vimgrep) output: exactly one record per recorded
+      span, in order; offset = line offset + span start, column = span start + 1, text = the span
+      (-o) or the whole line (per match); each record is a prelude followed by text, so theorem
+      prelude_roundtrip_any_text reads it back *)
+Theorem only_matching_records :
+  forall cfg env path sk w, st_only_matching cfg = true ->
+    w_out (sink_slow cfg env path sk w)
+    = w_out w ++ concat (map (span_record cfg env path sk true) (k_matches sk)).
+Proof. exact sink_slow_only_matching_layout. Qed.
+Print Assumptions only_matching_records.
+
+Theorem per_match_records :
+  forall cfg env path sk w, st_only_matching cfg = false -> st_per_match cfg = true ->
+    w_out (sink_slow cfg env path sk w)
+    = w_out w ++ concat (map (span_record cfg env path sk false) (k_matches sk)).
+Proof. exact sink_slow_per_match_layout. Qed.
+Print Assumptions per_match_records.
+
+(* 9. multi-line block with recorded spans (-U --column / --stats): write_colored_matches writes
+      exactly the line (whatever the spans are), so the block is one record per line: prelude with
+      that line's offset and number and the block's first-match column, the line without its
+      terminator, the searcher's terminator.  (Guard: trimming a line's terminator does not move its
+      end before its start — where the Rust `with_end` would panic.) *)
+Theorem write_colored_matches_writes_the_line :
+  forall env sk ls le midx w,
+    ls <= trim_line_terminator (e_lt env) (k_bytes sk) ls le -> midx < length (k_matches sk) ->
+    w_out (snd (write_colored_matches env (k_bytes sk) ls le (k_matches sk) midx w))
+    = w_out w ++ sub (k_bytes sk) ls (trim_line_terminator (e_lt env) (k_bytes sk) ls le) /\
+    fst (write_colored_matches env (k_bytes sk) ls le (k_matches sk) midx w) < length (k_matches sk).
+Proof. exact write_colored_matches_out. Qed.
+Print Assumptions write_colored_matches_writes_the_line.
+
+Theorem standard_record_shape_multi_line_slow :
+  forall cfg env path sk w,
+    st_only_matching cfg = false -> st_per_match cfg = false -> k_matches sk <> [] ->
+    Forall (fun se => fst se <= trim_line_terminator (e_lt env) (k_bytes sk) (fst se) (snd se))
+           (line_spans (lt_byte (e_lt env)) (k_bytes sk)) ->
+    w_out (sink_slow_multi_line cfg env path sk w)
+    = w_out w ++ slow_block_records cfg env path sk (line_spans (lt_byte (e_lt env)) (k_bytes sk)) 0.
+Proof. exact sink_slow_multi_line_layout. Qed.
+Print Assumptions standard_record_shape_multi_line_slow.
+
+(* 10. JSON: decode (encode x) = x.  Data, including the base64 branch for bytes that are not UTF-8 *)
+Theorem data_roundtrip :
+  forall b, Forall (fun x => (x < 256)%N) b -> data_decode (data_from_bytes b) = Some b.
+Proof. exact data_roundtrip_proof. Qed.
+Print Assumptions data_roundtrip.
+
+(* ... and a whole search: the output is begin, exactly the messages of the delivered Matched/Context
+   events in stream order, end; decoding each message gives back the event's kind, bytes, line
+   number, absolute offset and its submatches (start, end, bytes lines[start..end]) — for every
+   stream, matcher and byte content *)
+Theorem json_roundtrip :
+  forall find_at env cfg, j_max cfg = None ->
+  forall path evs fins,
+    j_always_begin_end cfg = false -> Forall (ev_ok find_at env) evs ->
+    Forall (fun e => Forall (fun x => (x < 256)%N) (ev_bytes e)) evs ->
+    exists s body, json_run find_at cfg env path evs fins = Some (s, true) /\
+      js_out s = (if existsb prints evs
+                  then JBegin (option_map data_from_bytes path) :: body
+                       ++ [JEnd (option_map data_from_bytes path) (f_bin (fins (1 + length evs))) (js_stats s)]
+                  else []) /\
+      map msg_decode body = map Some (filter_map (ev_fields find_at env) evs) /\
+      length body = length (filter prints evs).
+Proof. exact json_roundtrip_proof. Qed.
+Print Assumptions json_roundtrip.
+
+(* non-vacuity of the round trip: "f:3:2:7:xa\n" is read back as (f, 3, 2, 7, "xa\n");
+   with --null and a context separator "-": "f\0003-7-b\n" *)
+Example roundtrip_example :
+  parse_line ex_cfg [58]%N true true true [102; 58; 51; 58; 50; 58; 55; 58; 120; 97; 10]%N
+  = Some (Some [102]%N, Some 3%N, Some 2%N, Some 7%N, [120; 97; 10]%N).
+Proof. vm_compute. reflexivity. Qed.
+Example data_roundtrip_example :
+  data_from_bytes [255; 97]%N = JBytes [47; 50; 69; 61]%N /\ data_decode (JBytes [47; 50; 69; 61]%N) = Some [255; 97]%N.
+Proof. vm_compute. split; reflexivity. Qed.
+
+Check standard_line_roundtrip :
+  forall cfg env path sk w,
+    let sepf := separator_field cfg sk in
+    let col := if is_empty_list (k_matches sk) then None else Some (fst (nth_span (k_matches sk) 0) + 1) in
+    (e_multi env && negb (is_context sk)) = false ->
+    st_only_matching cfg = false -> st_per_match cfg = false ->
+    sep_ok sepf ->
+    (forall p, path = Some p -> forallb (fun x => negb (x =? path_delim cfg sepf)%N) p = true) ->
+    small (k_lnum sk) -> small col -> small (Some (k_off sk)) ->
+    exists rec,
+      w_out (impl_sink cfg env path sk w) = w_out (write_search_prelude cfg env path w) ++ rec /\
+      parse_line cfg sepf (is_some path) (is_some (k_lnum sk)) (is_some col) rec
+      = Some (shown_path cfg path, option_map N.of_nat (k_lnum sk),
+              (if st_column cfg then option_map N.of_nat col else None),
+              (if st_byte_offset cfg then Some (N.of_nat (k_off sk)) else None),
+              terminated (e_lt env) (k_bytes sk)).
